@@ -401,6 +401,11 @@ def check(ctx, rep):
 
     # an inner fix reverted by the enclosing hook is made by the *next* run: the first run is not a fixed point (all libcst codemods)
     rule_lost_update(ctx, rep, all_codemods=True)
+    from .c05 import rule_fileset_source
+
+    # the second run must look at the same selection as the first: files taken from the detector's findings instead of the selected paths
+    # are rewritten once the first run has emptied the prefilter (the detector then scans the whole directory)
+    rule_fileset_source(ctx, rep)
     rep.not_covered += [
         "fixed point for arbitrary programs and for codemods without a rule of their own (beyond the table rule)",
         "codemods listed as not-modelled: " + ", ".join(sorted(NOT_MODELLED)),
